@@ -178,6 +178,10 @@ inductive Op where
   | accept (headers : Bool) (sub : Bool) (badSub : Bool) | close (arg : CodeArg) (reason : Bool)
   | send (k : Kind) | recv (k : RecvKind)
   | raiseHttp (status : Int) | raiseStatus (status : Int) | raiseExc | raiseBoom
+  /-- the script itself raises an exception of one of the framework's own classes (`raise falcon.WebSocketDisconnected(code)`,
+      `OperationNotAllowed`, `PayloadTypeError`, `ValueError`, `OSError`, …) - by hand, or because it came out of an operation on
+      ANOTHER connection's `WebSocket` (a relay).  The class of the exception says nothing about the state of the socket being handled. -/
+  | raiseOf (e : Exc)
 deriving DecidableEq, Repr
 
 def W.op (w : W) (disc : Option Int) : Op → W × Option Exc
@@ -189,6 +193,7 @@ def W.op (w : W) (disc : Option Int) : Op → W × Option Exc
   | .raiseStatus s => (w, some (.httpStatus s))
   | .raiseExc => (w, some .pyErr)
   | .raiseBoom => (w, some .boom)
+  | .raiseOf e => (w, some e)
 
 /-- exceptions the scripted responder catches when its `catch` flag is set -/
 def Exc.catchable : Exc → Bool
